@@ -80,6 +80,14 @@ func c16Gen(g *core.Gen) {
 		}
 		_ = s
 	}
+	// exactly 256 pairwise different slices whose CRC-32s agree in their low 16 bits (any 8- or 16-bit counter over
+	// checksum prefixes wraps exactly there), reached while sliding: bytes inserted / deleted in front of them
+	for _, n := range []int{258, 300} {
+		cfg := scen.P2Config{Sizes: []int{8*n + 3, 20}, Slice: 8, Blocks: 7, Class: "crclow16"}
+		for _, op := range []scen.Dmg{{Op: "ins", F: 0, At: 0, N: 1}, {Op: "ins", F: 0, At: 3, N: 5}, {Op: "cut", F: 0, At: 0, N: 1}, {Op: "cut", F: 0, At: 2, N: 9}, {Op: "ins", F: 0, At: 8 * 100, N: 3}} {
+			g.Emit(&p2Case{Cfg: cfg, Dmg: []scen.Dmg{op}, G: 1, AutoPrune: true, Extra: []string{"c16"}})
+		}
+	}
 	// the same displaced-slice search right after another generation of the set (same ids, other content) was decoded in this process
 	genGenerationCases(func(c *p2Case) { c.Extra = []string{"c16"}; g.Emit(c) }, true)
 	// slice sizes at and around powers of two up to 64 KiB (rolling-CRC tables are built per window length): a 5-slice
